@@ -73,6 +73,13 @@ pub fn bucket_names() -> Value {
         all.push(json!({"bucket": name, "valid": want, "path_style_accepts": ps, "virtual_hosted_style_accepts": vh, "ok": ok}));
         if !ok && first_bad.is_none() { first_bad = Some(name.to_owned()); }
     }
+    // characters that must never be part of a bucket name; a '/' cannot be tested path-style (it ends the bucket there), so these go
+    // through the virtual-hosted-style parser only (the Host header can carry any byte)
+    for name in ["photos/album", "a/b", "abc/", "/abc", "ab+c", "ab,c", "ab:c", "ab*c", "ab%2fc", "ab\\c", "ab~c", "ab@c"] {
+        let vh = matches!(view(parse_virtual_hosted_style(Some(name), "/k")), D::Object(..));
+        all.push(json!({"bucket": name, "valid": false, "virtual_hosted_style_accepts": vh, "ok": !vh}));
+        if vh && first_bad.is_none() { first_bad = Some(name.to_owned()); }
+    }
     json!({"violates": first_bad.is_some(), "input": {"first_failing_name": first_bad}, "expected": "valid names accepted, names breaking the core rules refused, identically in both styles",
            "observed": all, "replay_args": ["bucket-names"]})
 }
